@@ -995,6 +995,61 @@ theorem fall_ifFalseElse (F : FloatOps) (B : List String) (pos bp p : Pos) (body
   simp only at hc
   exact fall_ifFalseElse_core F B pos e he rfl hc hcov hok hinv
 
+/-! ### `var` groups: every specification ends with DEFINELOCAL -/
+
+theorem okSpecs_of_specsF : ∀ (specs : List Spec) (B : List String), specsF B specs = true → okSpecs specs = true
+  | [], _, _ => by simp [okSpecs]
+  | sp :: rest, B, h => by
+    have h' : specF B sp = true ∧ specsF (defsSpec B sp) rest = true := by
+      have : specsF B (sp :: rest) = (specF B sp && specsF (defsSpec B sp) rest) := rfl
+      rw [this, Bool.and_eq_true] at h; exact h
+    have ih := okSpecs_of_specsF rest _ h'.2
+    rcases specF_inv h'.1 with ⟨iota, ipos, x, e, rfl, hF, hx⟩ | ⟨iota, ipos, x, rfl, hx⟩
+    · have oke := okE_of_exprF _ e hF
+      simp [okSpecs, okVals, oke, ih]
+    · simp [okSpecs, okVals, ih]
+
+theorem fall_specs (F : FloatOps) (pos : Pos) : ∀ (specs : List Spec) (B : List String), specsF B specs = true →
+    ∀ (last : Option (Compile.CM Unit × Compile.VSum)) (cs cs' : CState),
+    runCM (Compile.compileValueSpecs pos tVar specs last) cs = (.ok (), cs') → Cov B (localIdx cs) → CsOK cs → Inv cs →
+    Falls cs'.insts cs.insts.size cs'.insts.size
+  | [], B, _, last, cs, cs', hc, _, _, _ => by
+    rw [compileValueSpecs_nil] at hc
+    obtain ⟨_, rfl⟩ := pure_inv hc
+    exact .inl rfl
+  | sp :: rest, B, h, last, cs, cs', hc, hcov, hok, hinv => by
+    have h' : specF B sp = true ∧ specsF (defsSpec B sp) rest = true := by
+      have : specsF B (sp :: rest) = (specF B sp && specsF (defsSpec B sp) rest) := rfl
+      rw [this, Bool.and_eq_true] at h; exact h
+    rcases specF_inv h'.1 with ⟨iota, ipos, x, e, rfl, hF, hx⟩ | ⟨iota, ipos, x, rfl, hx⟩
+    · rw [compileValueSpecs_var1] at hc
+      obtain ⟨_, cs1, hc1, hc2⟩ := bind_inv hc
+      have h1 : GoodC F B (x :: B) (need e + 1) (do compileExpr e; Compile.compileDefine pos x false tVar)
+          (fun fuel env => Sem.execValueSpecs F fuel env tVar [(iota, [(ipos, x)], [some e])] none) :=
+        good_defineCore F B pos x e hF hx _ (fun fuel env ss t c env' ss' t' h => declRun_var1 F x e iota ipos none h)
+      obtain ⟨hse1, hok1, hcov1, _⟩ := h1 cs cs1 hc1 hcov hok
+      have g1 := good_run (Compile.GoodP.bind (P := fun _ => True) (R := fun _ => True)
+        ((Compile.allGood (sizeOf e + 1)).expr e (Nat.lt_succ_self _) (okE_of_exprF _ e hF))
+        (fun _ _ => Compile.good_compileDefine pos x false tVar)) hinv hc1
+      obtain ⟨hse2, _, _, _⟩ := good_specs F pos rest (x :: B) h'.2 _ none cs1 cs' hc2 hcov1 hok1
+      have e1 := fall_defineCore F B pos x e hF hx hc1 hcov hok hinv
+      have e2 := fall_specs F pos rest (x :: B) h'.2 _ cs1 cs' hc2 hcov1 hok1 g1.1
+      exact (e1.pre hse2.pre (Nat.le_refl _)).seq e2 hse1.pre.1
+    · rw [compileValueSpecs_var0] at hc
+      obtain ⟨_, cs1, hc1, hc2⟩ := bind_inv hc
+      have h1 : GoodC F B (x :: B) 2 (do compileExpr (.undef ipos); Compile.compileDefine pos x false tVar)
+          (fun fuel env => Sem.execValueSpecs F fuel env tVar [(iota, [(ipos, x)], [])] none) :=
+        good_defineCore F B pos x (.undef ipos) rfl hx _
+          (fun fuel env ss t c env' ss' t' h => declRun_var0 F x iota ipos none h)
+      obtain ⟨hse1, hok1, hcov1, _⟩ := h1 cs cs1 hc1 hcov hok
+      have g1 := good_run (Compile.GoodP.bind (P := fun _ => True) (R := fun _ => True)
+        ((Compile.allGood (sizeOf (Expr.undef ipos) + 1)).expr (.undef ipos) (Nat.lt_succ_self _) (by simp [okE]))
+        (fun _ _ => Compile.good_compileDefine pos x false tVar)) hinv hc1
+      obtain ⟨hse2, _, _, _⟩ := good_specs F pos rest (x :: B) h'.2 _ none cs1 cs' hc2 hcov1 hok1
+      have e1 := fall_defineCore F B pos x (.undef ipos) rfl hx hc1 hcov hok hinv
+      have e2 := fall_specs F pos rest (x :: B) h'.2 _ cs1 cs' hc2 hcov1 hok1 g1.1
+      exact (e1.pre hse2.pre (Nat.le_refl _)).seq e2 hse1.pre.1
+
 /-! ### every statement (list) of the fragment -/
 
 structure AllF (F : FloatOps) (n : Nat) : Prop where
@@ -1170,11 +1225,17 @@ theorem fstep_stmt {F : FloatOps} {n : Nat} (ih : AllF F n) (st : Stmt) (hsz : s
                   exact fall_compound F B pos p x r tok op hr (by simpa using hk.2) hop
             | _ => cases h
   | declValue pos tok specs =>
-    have h' : declF B tok specs = true := h
-    rcases declF_inv h' with ⟨iota, ipos, x, e, rfl, h1, rfl, h3⟩ | ⟨iota, ipos, x, rfl, rfl, h3⟩
-    · have oke := okE_of_exprF _ e h1
-      exact ⟨by simp [okS, okSpecs, okVals, oke], fall_varDecl F B pos ipos iota x e h1 h3⟩
-    · exact ⟨by simp [okS, okSpecs, okVals], fall_varDecl0 F B pos ipos iota x h3⟩
+    have h' : (tok == tVar && !specs.isEmpty && specsF B specs) = true := h
+    simp only [Bool.and_eq_true, Bool.not_eq_true'] at h'
+    have ht : tok = tVar := by simpa using h'.1.1
+    subst ht
+    refine ⟨by simpa [okS] using okSpecs_of_specsF specs B h'.2, ?_⟩
+    intro cs cs' hc hcov hok hinv _
+    cases specs with
+    | nil => simp at h'
+    | cons sp rest =>
+      rw [compileStmt_varGroup] at hc
+      exact fall_specs F pos (sp :: rest) B h'.2 none cs cs' hc hcov hok hinv
   | incdec pos tok tp e =>
     cases e with
     | ident p x =>
